@@ -86,6 +86,11 @@ def lemma_tiles(L):
     L.direct([n >= 1], And(C(n, n) == 1, C(n, 1) == n), patterns=[C(n, n)], close=False, name="ends")
 
 
+from contracts import C10_counter
+
+DIVSET, SORTED_ENUM, SORTED_LEN = C10_counter.install(P, MF, dvd, D, C, R)
+
+
 # =====================================================================================
 # _factorize
 # =====================================================================================
@@ -125,6 +130,8 @@ def c_divisors(c):
     c.post("only_divisors", lambda r: forall([x], Implies(mem(r, x), dvd(x, n)), patterns=[mem(r, x)]))
     c.post("every_divisor", lambda r: forall([x], Implies(dvd(x, n), mem(r, x)), patterns=[dvd(x, n)]))
     c.post("ascending", lambda r: increasing(r))
+    # ... and it IS the sorted enumeration of the divisor set (what the chain count sums over)
+    c.post("is_the_sorted_divisor_enumeration", lambda r: And(r.n == SORTED_LEN(DIVSET(n)), r.arr == SORTED_ENUM(DIVSET(n))))
 
 
 # =====================================================================================
